@@ -413,6 +413,14 @@ sqfs_inode_generic_t
 		inode->payload_bytes_used = 0;
 
 		for (idx = writer->idx; idx != NULL; idx = idx->next) {
+			/*
+			  The count is a 16 bit field. The index is only a
+			  search aid, a reader gets along with one that does
+			  not cover the end of the listing.
+			 */
+			if (inode->data.dir_ext.inodex_count == 0xFFFF)
+				break;
+
 			memset(&ent, 0, sizeof(ent));
 			ent.start_block = idx->block;
 			ent.index = idx->index;
